@@ -56,7 +56,7 @@ NoDup(s) == \A m, n \in DOMAIN s : m # n => s[m] # s[n]
 ResultOk(res) ==
   IF IsOk(res)
   THEN /\ IsOk(Want) /\ res.ok.out = Want.ok
-       /\ Range(res.ok.kept) = KeepD(defs, filter) /\ NoDup(res.ok.kept)
+       /\ Range(res.ok.kept) = KeepDFast(defs, filter) /\ NoDup(res.ok.kept)
   ELSE /\ IsErr(Want) /\ res.err \in Want.err
 
 TResult == /\ IsEvent("result") /\ phase = "fresh" /\ phase' = "judged" /\ ResultOk(Rec[l].res) /\ Keep
@@ -70,7 +70,7 @@ TMap == /\ IsEvent("map") /\ phase = "fresh" /\ phase' = "judged" /\ MapOk(Rec[l
 
 \* beyond the statements (Strict only)
 InfoOk(r) ==
-  /\ IsOk(r.res) => /\ r.res.ok.kept = InOrder(defs, KeepD(defs, filter))
+  /\ IsOk(r.res) => /\ r.res.ok.kept = InOrder(defs, KeepDFast(defs, filter))
                     /\ ("map" \in DOMAIN r.res.ok =>
                           /\ MapNamesOk(defs, body, r.res.ok.map)
                           /\ \A n \in DOMAIN r.sources : r.sources[n] = ListSources(r.res.ok.map, n - 1))
